@@ -123,7 +123,11 @@ func (l *levelDownCache) Destroy(directory string, dbAddress address.Address) er
 	defer l.muCaches.Unlock()
 
 	if wc, ok := l.caches[keyPath]; ok {
-		wc.Close()
+		// muCaches is held: closing through wc.Close(), which takes it too,
+		// would block for ever
+		wc.closed = true
+		_ = wc.wrappedCache.Close()
+		delete(l.caches, keyPath)
 	}
 
 	if directory != InMemoryDirectory {
